@@ -102,6 +102,12 @@ def _literal(e):
   return False
 
 
+def _root_name(e):
+  while isinstance(e, ast.Attribute):
+    e = e.value
+  return e.id if isinstance(e, ast.Name) else None
+
+
 def _table(e):
   """an immutable literal whose leaves are constants or plain dotted names
   (modules, enum members): a lookup table"""
@@ -168,13 +174,22 @@ def inline_new_constants(tree, rel):
     return 0
   counts = module_assigned(tree)
   consts = {}
+  imported = set()
+  for s in tree.body:
+    if isinstance(s, (ast.Import, ast.ImportFrom)):
+      for a in s.names:
+        imported.add((a.asname or a.name).split('.')[0])
   for s in tree.body:
     if isinstance(s, ast.Assign) and len(s.targets) == 1 and isinstance(
         s.targets[0], ast.Name):
       n = s.targets[0].id
       if n.startswith('_') and not n.startswith('__') and n not in ka and \
           counts.get(n) == 1 and (_literal(s.value) or (
-              isinstance(s.value, ast.Tuple) and _table(s.value))):
+              isinstance(s.value, ast.Tuple) and _table(s.value)) or (
+                  # a name for a member of an imported module (an enum member,
+                  # a class): anno.Basic.QN, ast.Load
+                  isinstance(s.value, ast.Attribute) and _table(s.value) and
+                  _root_name(s.value) in imported)):
         consts[n] = s.value
   if not consts:
     return 0
@@ -428,6 +443,17 @@ def rename_back(tree, rel):
       return n
   R().visit(tree)
   return ren
+
+
+def _dotted_text(e):
+  parts = []
+  while isinstance(e, ast.Attribute):
+    parts.append(e.attr)
+    e = e.value
+  if isinstance(e, ast.Name):
+    parts.append(e.id)
+    return '.'.join(reversed(parts))
+  return None
 
 
 def _has(node, kinds):
@@ -1145,10 +1171,23 @@ def _as_expression(fn):
   """The value of a helper as one expression: `return E`, possibly preceded by
   assignments of call-free expressions to locals that are each assigned once and
   read once (they are substituted into E)."""
-  body = _strip_doc(fn.body)
-  if not body or not isinstance(body[-1], ast.Return) or body[-1].value is None:
+  body = _nest_tail(_strip_doc(fn.body))
+
+  def ret_expr(stmts):
+    # `return E`, or `if c: return A` / `else: return B` (guard clauses nested
+    # by _nest_tail) as the conditional expression `A if c else B`
+    if len(stmts) == 1 and isinstance(stmts[0], ast.Return) and stmts[0].value is not None:
+      return copy.deepcopy(stmts[0].value)
+    if len(stmts) == 1 and isinstance(stmts[0], ast.If) and stmts[0].orelse:
+      a, b = ret_expr(stmts[0].body), ret_expr(stmts[0].orelse)
+      if a is not None and b is not None:
+        return ast.IfExp(test=copy.deepcopy(stmts[0].test), body=a, orelse=b)
     return None
-  e = copy.deepcopy(body[-1].value)
+  if not body:
+    return None
+  e = ret_expr(body[-1:])
+  if e is None:
+    return None
   for st in reversed(body[:-1]):
     if not (isinstance(st, ast.Assign) and len(st.targets) == 1 and isinstance(
         st.targets[0], ast.Name)) or _has(st.value, (ast.Call, ast.Lambda, ast.Yield,
@@ -1273,9 +1312,23 @@ class _Inliner:
     if isinstance(s, (ast.Assign, ast.Expr, ast.Return, ast.AugAssign, ast.Raise)):
       calls = [n for n in ast.walk(s) if isinstance(n, ast.Call)]
       mine = [c for c in calls if self._callee(c, cls)[0] is not None]
-      if len(mine) == 1 and len(calls) == 1 and not _has(s, (ast.Lambda, ast.ListComp,
-                                                             ast.GeneratorExp, ast.DictComp,
-                                                             ast.SetComp, ast.IfExp, ast.BoolOp)):
+      def _only_after(c0):
+        """every other call of the statement takes c0 (directly or nested) as an
+        argument, after arguments that are plain reads: c0 runs first"""
+        for c in calls:
+          if c is c0:
+            continue
+          if not any(x is c0 for x in ast.walk(c)) or not _simple(c.func):
+            return False
+          for a in list(c.args) + [k.value for k in c.keywords]:
+            if any(x is c0 for x in ast.walk(a)):
+              break
+            if not _simple(a):
+              return False
+        return True
+      if len(mine) == 1 and (len(calls) == 1 or _only_after(mine[0])) and not _has(
+          s, (ast.Lambda, ast.ListComp, ast.GeneratorExp, ast.DictComp, ast.SetComp,
+              ast.IfExp, ast.BoolOp)):
         fn, is_m = self._callee(mine[0], cls)
         tmp = 'ret__' + fn.name.strip('_')
         rep = _expand(fn, mine[0], is_m, 'assign', [ast.Name(id=tmp, ctx=ast.Store())], s)
@@ -1370,6 +1423,34 @@ class _Idioms(ast.NodeTransformer):
     if isinstance(n.test, ast.Constant):
       keep = n.body if n.test.value else n.orelse
       return keep or [ast.copy_location(ast.Pass(), n)]
+    # if anno.hasanno(X, K): V = anno.getanno(X, K) / else: V = D
+    #   ==  V = anno.getanno(X, K, D)      (the repo's own annotation API)
+    t = n.test
+    if isinstance(t, ast.Call) and _dotted_text(t.func) == 'anno.hasanno' and \
+        len(t.args) == 2 and not t.keywords and len(n.body) == 1 and len(n.orelse) == 1 \
+        and all(isinstance(x, ast.Assign) and len(x.targets) == 1 and isinstance(
+            x.targets[0], ast.Name) for x in (n.body[0], n.orelse[0])) and \
+        n.body[0].targets[0].id == n.orelse[0].targets[0].id:
+      g = n.body[0].value
+      if isinstance(g, ast.Call) and _dotted_text(g.func) == 'anno.getanno' and \
+          len(g.args) == 2 and not g.keywords and [ast.dump(a) for a in g.args] == [
+              ast.dump(a) for a in t.args] and _simple(t.args[0]):
+        new = ast.Assign(targets=n.body[0].targets, value=ast.Call(
+            func=g.func, args=list(g.args) + [n.orelse[0].value], keywords=[]))
+        return ast.fix_missing_locations(ast.copy_location(new, n))
+    return n
+
+  def visit_IfExp(self, n):
+    self.generic_visit(n)
+    # anno.getanno(X, K) if anno.hasanno(X, K) else D  ==  anno.getanno(X, K, D)
+    t, g = n.test, n.body
+    if isinstance(t, ast.Call) and _dotted_text(t.func) == 'anno.hasanno' and \
+        len(t.args) == 2 and not t.keywords and isinstance(g, ast.Call) and \
+        _dotted_text(g.func) == 'anno.getanno' and len(g.args) == 2 and not g.keywords \
+        and [ast.dump(a) for a in g.args] == [ast.dump(a) for a in t.args] and \
+        _simple(t.args[0]):
+      return ast.copy_location(ast.Call(func=g.func, args=list(g.args) + [n.orelse],
+                                        keywords=[]), n)
     return n
 
   def visit_Compare(self, n):
